@@ -149,4 +149,15 @@ PROPS = {
         'explanation': 'reduced: module threading of COMPONENTS OF / type resolution (a dictionary whose module order changes, e.g. '
                        'after pformat/eval, is expanded the same way) and copy-before-write of compiled members',
     },
+    'C01': {
+        'lemmas': ['tc_roundtrip', 'be_roundtrip_nonneg', 'be_roundtrip_neg', 'der_length_roundtrip', 'field_cat', 'div_cat',
+                   'mod_cat', 'be_val_nonneg', 'be_val_bound'],
+        'assumptions': [GRAPH, 'composition of the per-class pairs into whole type graphs (structural induction) is argued, not mechanised',
+                        'containers (SEQUENCE/SET member loops, CHOICE index, PER/OER additions), strings and time types are not '
+                        'paired yet; REAL (math.frexp, float arithmetic) is outside this family (IEEE-754): no contract'],
+        'trusted_base': [FOREIGN],
+        'explanation': 'per-class encode/decode contracts against the same spec functions (INTEGER two\'s complement, BOOLEAN, '
+                       'length octets, OER/PER bit-stream primitives) plus round-trip lemmas over those spec functions proved by '
+                       'induction: tc_roundtrip, be_roundtrip_*, der_length_roundtrip, field_cat',
+    },
 }
